@@ -153,9 +153,9 @@ def run(chk):
             def __init__(self, method):
                 self.method, self.order = method, (3, 0)
 
-            def a(self, scale, nf):
+            def a(self, scale, nf=None):      # signature of Couplings.a: without nf the patch is inferred from the scale
                 calls.append((scale, nf))
-                return (T.app("a_s", T.lift(scale), T.lift(nf)), Q(0))
+                return (T.app("a_s", T.lift(scale), T.lift(nf) if nf is not None else T.app("patch_inferred_from_scale")), Q(0))
 
         q2to, q2ref, xif2 = T.var("q2_to"), T.var("q2m_ref"), T.var("xif2")
         seen = {}
@@ -229,8 +229,8 @@ def run(chk):
             self.atlas.walls = [0] + [m * r for m, r in zip(masses2, own_ratios)] + [mm.np.inf]
             self.order = order
 
-        def a(self, scale, nf):
-            return (T.app("a_s", T.lift(scale), T.lift(nf)), Q(0))
+        def a(self, scale, nf=None):
+            return (T.app("a_s", T.lift(scale), T.lift(nf) if nf is not None else T.app("patch_inferred_from_scale")), Q(0))
 
     skd = mm.ker_dispatcher
     mm.ker_dispatcher = lambda q2_to, q2_from, sc_, xif2_, nf_: (kcalls.append((q2_to, q2_from, nf_)), T.app("K", T.lift(q2_to), T.lift(q2_from), T.lift(nf_)))[1]
